@@ -22,7 +22,7 @@ func init() {
 		},
 		NumCases: func(tier string) int {
 			if tier == "thorough" {
-				return c01EnumCases("thorough") + 60000
+				return c01EnumCases("thorough") + 400000
 			}
 			return c01EnumCases("quick") + 4000
 		},
